@@ -613,6 +613,24 @@ func planeReader(a *anchors, r *sx.Rep, fn *ssa.Function, role string, hdrT type
 			}
 		}
 	}
+	// REC-ALL: the element store executes in every iteration of the decode loop nest
+	{
+		b := st.St.Block()
+		uncond := true
+		for i := len(ivs) - 1; i >= 0; i-- {
+			for _, l := range ivs[i].Loop.Latch {
+				if !b.Dominates(l) {
+					uncond = false
+				}
+			}
+			b = ivs[i].Loop.Header
+		}
+		if !uncond {
+			r.Violate("REC-ALL", name, a.p.Pos(st.St.Pos()), "the decoded element is stored conditionally inside the decode loop: some records yield no output element (every record yields one splat, unconditionally)")
+			return
+		}
+		r.Hold("REC-ALL", name, a.p.Pos(st.St.Pos()), "the element store executes in every iteration of the decode loop nest")
+	}
 	I := e.Int(st.Ad.SliceIdx)
 	// output coverage
 	var ordinal sx.Poly // record ordinal of the plane this store decodes
